@@ -6,6 +6,7 @@ import SplVerif.Props.C18
 import SplVerif.Model.Table
 import SplVerif.Props.C07
 import SplVerif.Lemmas.Total
+import SplVerif.Lemmas.IdOK
 
 namespace Spl.C02
 
@@ -128,5 +129,22 @@ theorem lex_parse_total (text : List Char) : ∃ toks p, lex text = .ok toks ∧
   obtain ⟨p, hp⟩ := parse_total (lexL text 0) (eofToken (utf8Len text)) (by simp [eofToken, Token.kind, TokenType.kind])
     (lexL_not_eof text 0)
   exact ⟨_, p, hl, hp⟩
+
+/-- **`AnalyzedSource::new` never panics**: for every text whatsoever, lexing, parsing, building the
+    symbol table and the semantic pass all return — the document (tokens, tree, table, with every
+    diagnostic attached) always exists.  The table and semantic passes index the token range of an
+    identifier (`range.hi - 1` would underflow on an empty range); `IdOK.parse_idProg` shows that every
+    identifier the parser produces covers a token, `AnalyzeTotal.build_analyze_total` that this is
+    all those passes need (including: no type can be named `main`, so the `'main' must be a
+    procedure` panic is unreachable). -/
+theorem new_total (text : List Char) : ∃ d, AnalyzedSource.new text = .ok d := by
+  obtain ⟨toks, p, hl, hp⟩ := lex_parse_total text
+  obtain ⟨p1, t, p2, hb, ha⟩ := AnalyzeTotal.build_analyze_total p (IdOK.parse_idProg toks p hp)
+  exact ⟨{ text := text, tokens := toks, ast := p2, table := t }, by simp only [AnalyzedSource.new, hl, hp, hb, ha]⟩
+
+/-- non-vacuity / sanity: a text with two procedures, a type named like a builtin and a use of an
+    undeclared name goes through every pass -/
+example : (AnalyzedSource.new "type int = array [3] of bool; proc main() { var i: int; i[0] := x; q(i); } proc q(ref a: int) {}".toList).toOption.isSome = true := by
+  decide +kernel
 
 end Spl.C02
